@@ -383,7 +383,7 @@ class DefaultOperatorResolver(OperatorResolver):
             power_term = next(iter(power))
             try:
                 power_value = ast.literal_eval(power_term.factors[0].expr)
-            except (ValueError, SyntaxError):
+            except Exception:  # noqa: BLE001  # anything unreadable is not an integer
                 power_value = None
             if (
                 not len(power_term.factors) == 1
